@@ -113,3 +113,15 @@
 ; @block trimzero requires GoString Slice_Int
 ; (assumed) string(bytes.Trim(bs, "\x00")): uninterpreted function of the byte content
 (declare-fun trimzero (Slice_Int) Slice_Int)
+
+; @block hexdigest requires Slice_Int A32 block:hexcodec
+; (derived from the hex codec inverse axiom, from32's definition and extensionality of A32)
+; decoding the hex of a 32-byte digest gives the digest back
+(assert (forall ((b Slice_Int)) (! (=> (>= (slen_Int b) 32) (= (from32 (unhex (hexs b))) (from32 b))) :pattern ((from32 (unhex (hexs b)))))))
+(define-fun hexdigest_loaded () Bool true)
+
+; @block cntKeys requires A20 Slice_A20
+; cntKeys(d, ks, i): how many of the first i keys are in the set d (definitional recursion)
+(declare-fun cntKeys ((Array A20 Bool) Slice_A20 Int) Int)
+(assert (forall ((d (Array A20 Bool)) (ks Slice_A20)) (! (= (cntKeys d ks 0) 0) :pattern ((cntKeys d ks 0)))))
+(assert (forall ((d (Array A20 Bool)) (ks Slice_A20) (i Int)) (! (=> (> i 0) (= (cntKeys d ks i) (+ (cntKeys d ks (- i 1)) (ite (select d (select (sarr_A20 ks) (- i 1))) 1 0)))) :pattern ((cntKeys d ks i)))))
